@@ -28,7 +28,7 @@ ASSUMPTIONS = [
 ]
 COMPONENTS = {"real": ["pyxel exposure/readout/detector/containers", "filesystem (scratch dir)"], "stub": []}
 BUDGET = {"quick": {"n": 640, "wall": 100, "determinism": 4}, "thorough": {"n": 16000, "wall": 1500, "determinism": 12}}
-REQUIRED_REACH = ["clusters_written", "op:run", "op:pollute", "op:run_invalid", "nondestructive_multistep", "run_after_pollute", "times:file", "times:expr", "times:scalar", "invalid:setter"]
+REQUIRED_REACH = ["charge_array_handed_over", "clusters_written", "op:run", "op:pollute", "op:run_invalid", "nondestructive_multistep", "run_after_pollute", "times:file", "times:expr", "times:scalar", "invalid:setter"]
 
 INVALID = ["non_increasing", "duplicate", "first_zero", "start_eq_first", "start_gt_first", "empty", "2d", "decreasing"]
 EXPRS = [("numpy.linspace(1, 5, 3)", [1.0, 3.0, 5.0]), ("numpy.arange(2, 8, 2)", [2, 4, 6]), ("numpy.logspace(0, 2, 3)", [1.0, 10.0, 100.0]), ("numpy.array([0.5, 0.75, 4])", [0.5, 0.75, 4.0])]
@@ -94,6 +94,9 @@ def generate(rng, tier):
         if "photon" in w and rng.random() < 0.3:
             w[w.index("photon")] = "photon+"
         m["arguments"]["write"] = w
+    if rng.random() < 0.3:
+        # last model of every step: the charge array handed over to the pixel container by assignment (one shared array object)
+        scn["pipeline"].setdefault("data_processing", []).append({"name": "hand", "func": world.PROBE, "enabled": True, "arguments": {"tag": "hand", "level": 1, "write": ["pixel=charge"]}})
     n = rng.randint(2, 6)
     for _ in range(n):
         r = rng.random()
@@ -185,6 +188,8 @@ def execute(scn):
     n_enabled = len(ref.enabled_models(scn["pipeline"]))
     if any("clusters" in (m["arguments"].get("write") or []) for _, m in ref.enabled_models(scn["pipeline"])):
         stats["clusters_written"] = 1
+    if any("pixel=charge" in (m["arguments"].get("write") or []) for _, m in world.all_models(scn) if m.get("enabled", True)):
+        stats["charge_array_handed_over"] = 1
     polluted = False
     sim_time = 0.0
     h = hashlib.sha256()
